@@ -59,7 +59,7 @@ fn get_summary_range_delta_indicies(
         Date::from_calendar_date(3000, time::Month::January, 1).unwrap();
     // for _, delta := range deltas[latestDeltaInSummaryRangeIdx+1:] {
     for delta in &deltas[latest_delta_in_summary_range_idx + 1..] {
-        if delta.is_superficial_loss() {
+        if delta.is_loss_sale() {
             first_superficial_loss_period_day =
                 get_first_day_in_superficial_loss_period(delta.tx.settlement_date);
             tx_in_summary_overlaps_superficial_loss =
@@ -67,10 +67,10 @@ fn get_summary_range_delta_indicies(
             if tx_in_summary_overlaps_superficial_loss {
                 debug!(
                     "get_summary_range_delta_indicies: {} tx in {} settled on {} is in SFL period \
-                    (starting {}) of tx settled on {} (SFL of {})",
+                    (starting {}) of tx settled on {} (SFL of {:?})",
                     latest_in_summary_tx.security, latest_in_summary_tx.affiliate.name(),
                     latest_in_summary_tx.settlement_date, first_superficial_loss_period_day,
-                    delta.tx.settlement_date, *delta.sfl.as_ref().unwrap().superficial_loss,
+                    delta.tx.settlement_date, delta.sfl.as_ref().map(|s| *s.superficial_loss),
                 );
             }
             break;
@@ -94,7 +94,7 @@ fn get_summary_range_delta_indicies(
                 latest_summarizable_date = Some(delta.tx.settlement_date);
                 break;
             }
-            if delta.is_superficial_loss() {
+            if delta.is_loss_sale() {
                 // We've encountered another superficial loss within the summary
                 // range. This can be affected by previous txs, so we need to now push
                 // up the period where we can't find any txs.
